@@ -170,6 +170,10 @@ def run(ctx):
     for o in ctx.own_of("c04"):
         if o["rule"] in ("R04.1", "R04.2"):
             ctx._add(o["status"], "R02.6", o["key"].split("|", 1)[1], o["desc"], o["where"], o["detail"])
+        # a delete answered on the spot from what the caller thread sees (nothing hidden, nothing queued) lets a put that
+        # was queued before it write afterwards: the read then returns a value whose delete had completed
+        if o["rule"] == "R04.8":
+            ctx._add(o["status"], "R02.8", o["key"].split("|", 1)[1], o["desc"] + " [else a put queued before the delete becomes readable after the delete completed]", o["where"], o["detail"])
 
     # ---- R02.7 a completed upsert's value is what readers see: the request reaches the entry unchanged (C08 R08.6/R08.9)
     import c08
